@@ -147,19 +147,40 @@ def strip_comments(src):
     return "".join(out)
 
 
-def forbidden_tokens():
-    """hits of sorry/admit/axiom/native_decide/... in lean/Pk outside comments and string literals"""
+def import_closure(modules):
+    """files of lean/Pk reachable through `import Pk.…` from the given modules"""
+    seen, todo = {}, list(modules)
+    while todo:
+        m = todo.pop()
+        if m in seen or not m.startswith("Pk"):
+            continue
+        path = os.path.join(LEAN, *m.split(".")) + ".lean"
+        if not os.path.exists(path):
+            continue
+        seen[m] = path
+        for line in open(path, encoding="utf8"):
+            mm = re.match(r"\s*(?:public\s+)?import\s+(Pk[\w.]*)", line)
+            if mm:
+                todo.append(mm.group(1))
+    return seen
+
+
+def forbidden_tokens(modules=None):
+    """hits of sorry/admit/axiom/native_decide/... outside comments and string literals, in the import
+    closure of `modules` (default: all of lean/Pk)"""
     hits = []
-    for root, _d, files in os.walk(os.path.join(LEAN, "Pk")):
-        for f in files:
-            if not f.endswith(".lean"):
-                continue
-            p = os.path.join(root, f)
-            txt = strip_comments(open(p, encoding="utf8").read())
-            for n, line in enumerate(txt.split("\n"), 1):
-                l2 = re.sub(r'"(\\.|[^"\\])*"', '""', line)
-                if FORBIDDEN.search(l2):
-                    hits.append("%s:%d: %s" % (os.path.relpath(p, LEAN), n, line.strip()))
+    if modules is not None:
+        paths = sorted(import_closure(modules).values())
+    else:
+        paths = []
+        for root, _d, files in os.walk(os.path.join(LEAN, "Pk")):
+            paths += [os.path.join(root, f) for f in files if f.endswith(".lean")]
+    for p in paths:
+        txt = strip_comments(open(p, encoding="utf8").read())
+        for n, line in enumerate(txt.split("\n"), 1):
+            l2 = re.sub(r'"(\\.|[^"\\])*"', '""', line)
+            if FORBIDDEN.search(l2):
+                hits.append("%s:%d: %s" % (os.path.relpath(p, LEAN), n, line.strip()))
     return hits
 
 
@@ -226,7 +247,8 @@ def check_obligations(prop, extra_modules=(), leanchecker=False):
         ob.failed = [(n, "module does not build: " + "; ".join(errs[:3])) for n in ob.names] or [
             (mod, "module does not build")]
         return ob
-    hits = forbidden_tokens()
+    drv = "Pk.Driver.%s" % prop
+    hits = forbidden_tokens([mod, drv, "Pk.Driver.Mgr"] + list(extra_modules))
     if hits:
         ob.failed = [(n, "forbidden token in lean/Pk: " + hits[0]) for n in ob.names]
         return ob
